@@ -5,6 +5,8 @@ import (
 	"go/ast"
 	"go/token"
 	"go/types"
+	"os"
+	"os/exec"
 	"sort"
 	"strings"
 
@@ -127,9 +129,24 @@ func runC14(c *Ctx) {
 		}
 	}
 	c.Extra("functions_in_scope", len(scope))
+	examinedLines := map[string]bool{}
+	noteLine := func(p token.Pos) {
+		if p.IsValid() {
+			pp := c.Fset.Position(p)
+			examinedLines[fmt.Sprintf("%s:%d", pp.Filename, pp.Line)] = true
+		}
+	}
 	for _, f := range scope {
 		if f == evalSSA {
-			continue // its slices are decided by the minimum-lexeme-length rule above
+			// its slices are decided by the minimum-lexeme-length rule above
+			for _, b := range f.Blocks {
+				for _, in := range b.Instrs {
+					if sl, ok := in.(*ssa.Slice); ok {
+						noteLine(sl.Pos())
+					}
+				}
+			}
+			continue
 		}
 		if strings.Contains(fnPkgPath(f), "/generate") && strings.HasSuffix(fnPkgPath(f), "parser/generate") {
 			continue
@@ -155,13 +172,16 @@ func runC14(c *Ctx) {
 						"a non-comma-ok type assertion that no rule discharges: it panics when the dynamic type differs")
 				case *ssa.IndexAddr:
 					nIdx++
+					noteLine(x.Pos())
 					checkIndexSite(c, f, x, x.X, x.Index, covered, lexMin)
 				case *ssa.Index:
 					nIdx++
+					noteLine(x.Pos())
 					checkIndexSite(c, f, x, x.X, x.Index, covered, lexMin)
 				case *ssa.Lookup:
 					if _, isMap := x.X.Type().Underlying().(*types.Map); !isMap {
 						nIdx++
+						noteLine(x.Pos())
 						checkIndexSite(c, f, x, x.X, x.Index, covered, lexMin)
 					}
 				case *ssa.Slice:
@@ -169,6 +189,7 @@ func runC14(c *Ctx) {
 						continue
 					}
 					nIdx++
+					noteLine(x.Pos())
 					checkSliceSite(c, f, x, covered, lexMin)
 				}
 			}
@@ -188,6 +209,9 @@ func runC14(c *Ctx) {
 
 	checkMainExit(c, "R14.3")
 	checkNilSuccess(c, ri)
+	if c.Tier == "thorough" {
+		crossCheckBCE(c, scope, examinedLines)
+	}
 }
 
 func coveredNear(covered map[token.Pos]bool, c *Ctx, p token.Pos) bool {
@@ -991,4 +1015,71 @@ func checkCursorInvariant(c *Ctx, covered map[token.Pos]bool) {
 			}
 		}
 	}
+}
+
+
+// crossCheckBCE (thorough): the compiler's own list of bounds checks it could not eliminate is an independent obligation
+// generator. Every such site inside a function in scope must be a site the inventory examined (same file and line).
+func crossCheckBCE(c *Ctx, scope []*ssa.Function, examined map[string]bool) {
+	cache, err := os.MkdirTemp("", "emcheck-bce-")
+	if err != nil {
+		c.Undecided("R14.2", "bounds-check listing", token.NoPos, err.Error())
+		return
+	}
+	defer os.RemoveAll(cache)
+	cmd := exec.Command("go", "build", "-gcflags="+modPath+"/...=-l -d=ssa/check_bce/debug=1", "./...")
+	cmd.Dir = c.Repo
+	cmd.Env = append(os.Environ(), "GOFLAGS=-mod=mod", "GOPROXY=off", "GOCACHE="+cache)
+	out, _ := cmd.CombinedOutput()
+	// function extents in scope
+	type extent struct {
+		file       string
+		from, to   int
+		name       string
+	}
+	var exts []extent
+	for _, f := range scope {
+		if f.Syntax() == nil {
+			continue
+		}
+		a, b := c.Fset.Position(f.Syntax().Pos()), c.Fset.Position(f.Syntax().End())
+		exts = append(exts, extent{a.Filename, a.Line, b.Line, shortFn(f)})
+	}
+	total, inScope, matched := 0, 0, 0
+	for _, line := range strings.Split(string(out), "\n") {
+		if !strings.Contains(line, "Found Is") {
+			continue
+		}
+		parts := strings.SplitN(line, ":", 4)
+		if len(parts) < 4 || strings.HasPrefix(parts[0], "/") && !strings.HasPrefix(parts[0], c.Repo) {
+			continue
+		}
+		total++
+		file := parts[0]
+		if !strings.HasPrefix(file, "/") {
+			file = c.Repo + "/" + strings.TrimPrefix(file, "./")
+		}
+		var ln int
+		fmt.Sscan(parts[1], &ln)
+		in := ""
+		for _, e := range exts {
+			if e.file == file && e.from <= ln && ln <= e.to {
+				in = e.name
+			}
+		}
+		if in == "" {
+			continue
+		}
+		inScope++
+		if examined[fmt.Sprintf("%s:%d", file, ln)] || strings.HasSuffix(file, "parsing_table.go") {
+			matched++
+			continue
+		}
+		c.Fail("R14.2", "compiler-listed bounds check in "+in+" was examined by the inventory", token.NoPos,
+			fmt.Sprintf("%s:%d has a bounds check the compiler could not eliminate, but the inventory generated no obligation on that line", strings.TrimPrefix(file, c.Repo+"/"), ln))
+	}
+	c.Extra("bce_sites_listed_by_compiler", total)
+	c.Extra("bce_sites_in_scope", inScope)
+	c.Extra("bce_sites_matched_by_inventory", matched)
+	c.Check("R14.2", "the compiler's bounds-check listing was obtained", token.NoPos, total >= 20, fmt.Sprintf("only %d sites listed: the cross-check did not run", total))
 }
